@@ -263,8 +263,34 @@ def run(ctx, repo, tier):
     for m in (le, gc, ls):
         ctx.analysed(m)
     reads = [n for n in ast.walk(le.node) if isinstance(n, ast.Call) and (repo.dotted_of(le.module, n.func) or "") == "pandas.read_csv"]
+    # per-format loaders may be private methods that load_energy reaches through a (file ending, bound method) table or a direct call
+    loader_of = {}
+    for n in ast.walk(le.node):
+        if isinstance(n, ast.Tuple) and len(n.elts) == 2 and isinstance(n.elts[0], ast.Constant) and isinstance(n.elts[0].value, str) and \
+                isinstance(n.elts[1], ast.Attribute) and isinstance(n.elts[1].value, ast.Name) and n.elts[1].value.id == "self":
+            loader_of[n.elts[1].attr] = n.elts[0].value
+    read_home = {}
+    for mname, mfi in er.methods.items():
+        if mfi is le or not mname.startswith("_"):
+            continue
+        if mname in loader_of or any(isinstance(x, ast.Attribute) and x.attr == mname for x in ast.walk(le.node)):
+            for n in ast.walk(mfi.node):
+                if isinstance(n, ast.Call) and (repo.dotted_of(mfi.module, n.func) or "") == "pandas.read_csv":
+                    reads.append(n)
+                    read_home[id(n)] = mfi
+                    ctx.analysed(mfi)
     def branch_of(call):
         """'xvg' / 'csv' from the file-type test that guards the call"""
+        if id(call) in read_home:
+            mf = read_home[id(call)]
+            short = mf.name.split(".")[-1]
+            if short in loader_of:
+                return "xvg" if "xvg" in loader_of[short] else ("csv" if "csv" in loader_of[short] else None)
+            # called directly from load_energy: classify by the test that guards that call
+            for cc in ast.walk(le.node):
+                if isinstance(cc, ast.Call) and isinstance(cc.func, ast.Attribute) and cc.func.attr == short:
+                    return branch_of(cc)
+            return None
         n = call
         while n is not None and n is not le.node:
             par = getattr(n, "_parent", None)
@@ -311,10 +337,17 @@ def run(ctx, repo, tier):
         else:
             ctx.ok("PAIRIO", "C20.xvg.header", "no line is consumed as a header (header=None or names given)", le.where)
         from ..astutil import Canon as _Canon
-        nexp = _Canon(_Canon.single_defs(le.node.body)).expand(names) if names is not None else None
+        home_ = read_home.get(id(c), le)
+        nexp = _Canon(_Canon.single_defs(home_.node.body)).expand(names) if names is not None else None
         if isinstance(nexp, ast.Call) and isinstance(nexp.func, ast.Attribute) and isinstance(nexp.func.value, ast.Name) and \
                 nexp.func.value.id == "self" and er.find_method(nexp.func.attr) is not None and \
-                any(isinstance(x, ast.JoinedStr) and "legend" in src(x) for x in ast.walk(er.find_method(nexp.func.attr).node)):
+                any(isinstance(x, (ast.JoinedStr, ast.Constant)) and "legend" in src(x)
+                    for root_ in [er.find_method(nexp.func.attr).node] +
+                    [st_.value for st_ in le.module.tree.body + er.node.body if isinstance(st_, ast.Assign) and len(st_.targets) == 1 and
+                     isinstance(st_.targets[0], ast.Name) and any(isinstance(y, (ast.Name, ast.Attribute)) and
+                                                                    (getattr(y, "id", None) == st_.targets[0].id or getattr(y, "attr", None) == st_.targets[0].id)
+                                                                    for y in ast.walk(er.find_method(nexp.func.attr).node))]
+                    for x in ast.walk(root_)):
             ctx.ok("PAIRIO", "C20.xvg.names", "column names passed to the parser are the legends read from the same file", le.where, src(nexp))
         elif names is None:
             ctx.violate("PAIRIO", "C20.xvg.names", "no column names are passed to the parser: columns are not labelled with the file's legends",
@@ -356,7 +389,9 @@ def run(ctx, repo, tier):
         # the prefixes may be prepared once:  prefixes = tuple(f"@ s{i} legend" for i in range(0, 10)) ; line.startswith(prefixes)
         class _R:          # adapter with the two attributes the rule reads (iter, and the subtree searched for startswith / append)
             pass
-        for comp in [n for n in ast.walk(gc.node) if isinstance(n, (ast.GeneratorExp, ast.ListComp)) and isinstance(n.elt, ast.JoinedStr)]:
+        mod_level = [st_.value for st_ in gc.module.tree.body if isinstance(st_, ast.Assign) and len(st_.targets) == 1 and
+                     isinstance(st_.targets[0], ast.Name) and any(isinstance(x, ast.Name) and x.id == st_.targets[0].id for x in ast.walk(gc.node))]
+        for comp in [n for root_ in [gc.node] + mod_level for n in ast.walk(root_) if isinstance(n, (ast.GeneratorExp, ast.ListComp)) and isinstance(n.elt, ast.JoinedStr)]:
             g0 = comp.generators[0]
             if isinstance(g0.iter, ast.Call) and isinstance(g0.iter.func, ast.Name) and g0.iter.func.id == "range" and not g0.ifs:
                 lines = [n for n in ast.walk(gc.node) if isinstance(n, ast.For) and not (isinstance(n.iter, ast.Call) and src(n.iter.func) == "range")]
